@@ -442,6 +442,7 @@ fn nonce_case(rep: &Report, key: &[u8; 32], aad: &[u8], cs: u32, p: &[u8], sizes
 pub fn run(rep: &'static Report) {
     let seed = rep.seed;
     rep.set_rule("E-GRAPH over histories: breadth-first search (stateright) over all operation sequences up to the length bound from {lib key_encrypt with randomness left to the implementation, PrivateKey::generate, kestrel encrypt, kestrel password encrypt, kestrel key generate, kestrel key change-pass}, all with identical inputs; in every state the whole history is executed on the real code/CLI and all fresh values (ephemeral keys, payload keys, file keys recovered by REF, salts, private keys) must be pairwise distinct and distinct from given values. Plus RNG-seam analysis (every delivered byte perturbed) and, per file, every record opens under exactly its own index. distinct non-trivial = histories + seam ops + (cs, L, partition) points");
+    rep.rule_add("every getrandom answer schedule per CLI operation (run twice); 4 fresh threads x 3 rounds; 4 keys appended to one keyring.");
     rep.assume("quality of getrandom itself is trusted; CLI operations use the real CSPRNG, a violating history is re-executed once and the verdict must not flip");
     let max_len = rep.tier.pick(3, 4);
     let ctx = Arc::new(HCtx { fx: Fixture::new(seed), rep, max_len, executed: AtomicU64::new(0), values: AtomicU64::new(0) });
